@@ -426,9 +426,9 @@ func runHostileImports(c *fw.Ctx, n int) {
 
 func init() {
 	fw.Register(&fw.Check{
-		ID:    "C10",
-		Level: "exploration",
-		Cases: func(tier string) int { return tierN(tier, 640, 20000) },
+		ID:          "C10",
+		Level:       "exploration",
+		Cases:       func(tier string) int { return tierN(tier, 640, 20000) },
 		CaseTimeout: 300e9,
 		Rule: "two case kinds by index mod 2. (0) fidelity: one history (10-40 ops; incl. empty tree, single leaf, versions whose root is inherited from an earlier version (reference root), pruning, rollback; 1 case in 39 (quick) / 9 (thorough) builds a tree of >10000 leaves so the import needs three 10000-node batches; for that tree every batch write is additionally failed once: the import must report it, leave nothing visible, and return (a call that never returns is decided from the goroutine dump: caller blocked inside iavl, nobody else inside iavl)); at up to 3 retained versions the Exporter stream is compared node by node with the reference post-order stream of R (key, value, version, height; must end with ErrorExportDone), then imported plain AND through CompressExporter->CompressImporter into fresh stores (random cache / fast index / flush threshold): root hash, latest version, the full model read battery, ICS-23 proofs against the SOURCE root, the raw-storage audit, and 2-4 further commits whose hashes must equal the reference continuing the source history. " +
 			"(1) totality: 150 (quick) / 1000 (thorough) hostile ExportNode sequences per case - mutations of valid streams (drop, duplicate, swap, truncate, heights/versions negative/0/too large/MaxInt64, nil or empty key/value, leaf/inner confusion) and random sequences - fed to Add..Commit (plain or compressed, stopping at the first error or ploughing on): a panic is a violation; if Commit did not succeed, a fresh tree on that store must Load() version 0 with no available versions. A hang trips the per-case watchdog. " +
